@@ -120,10 +120,25 @@ fn run_reader(run: &Run, out: &mut Trace) {
     let sched: Vec<i64> = run.cfg["sched"].as_array().map(|a| a.iter().map(|x| x.as_i64().unwrap()).collect()).unwrap_or_default();
     let max = geti(&run.cfg, "max");
     let limit = geti(&run.cfg, "limit");
-    let judge = StreamReader::chunk_judge(
+    let std_judge = StreamReader::chunk_judge(
         if max < 0 { usize::MAX } else { max as usize },
         if limit < 0 { None } else { Some(limit as u64) },
     );
+    // a judge of the family of StreamFraming.tla: the standard one, plus "skip records starting at these offsets"
+    // and "stop when the range starts at one of these offsets"
+    let set_of = |k: &str| -> Vec<u64> { run.cfg[k].as_array().map(|a| a.iter().map(|x| x.as_u64().unwrap()).collect()).unwrap_or_default() };
+    let (skip_at, stop_at) = (set_of("skip_at"), set_of("stop_at"));
+    let judge = |range: std::ops::Range<u64>, iov: owning_iovec::ConsumingIovec<'_>| {
+        if stop_at.contains(&range.start) {
+            return hcobs::StreamAction::Stop;
+        }
+        let nonempty = !range.is_empty();
+        let start = range.start;
+        match std_judge(range, iov) {
+            hcobs::StreamAction::KeepGoing if nonempty && skip_at.contains(&start) => hcobs::StreamAction::SkipRecord,
+            other => other,
+        }
+    };
     let mut rd = ScriptReader { data: &stream, pos: 0, sched, idx: 0, calls: 0 };
     let mut sr = StreamReader::new();
     let mut done = false;
@@ -181,6 +196,7 @@ pub fn drive_stream(ops: &str, trace: &str) {
         out.emit(&json!({"run":run.run,"ev":"reset","kind":kind,"stream":run.cfg["stream"],
                          "block":run.cfg["block"],"max":run.cfg["max"].as_i64().unwrap_or(-1),
                          "limit":run.cfg["limit"].as_i64().unwrap_or(-1),
+                         "skip_at":run.cfg.get("skip_at").cloned().unwrap_or(json!([])),"stop_at":run.cfg.get("stop_at").cloned().unwrap_or(json!([])),
                          "live":ByteArena::num_live_bytes(),"chunks":ByteArena::num_live_chunks()}));
         match kind.as_str() {
             "chunker" => run_chunker(run, &mut out),
